@@ -10,6 +10,63 @@ class SchedAbort(BaseException):
     pass
 
 
+class SelfDeadlock(BaseException):
+    """A thread asked (blocking, no timeout) for a non-reentrant lock it holds itself: with threading.Lock this
+    call never returns.  BaseException so that no `except Exception` in the code under test can absorb it."""
+
+
+DEADLOCKS = []       # witnesses (stack summaries), newest last; cleared by whoever judges them
+
+
+class DetectLock(object):
+    """A real threading.Lock that knows its owner.  Same blocking behaviour, except that the one case which can
+    never make progress - the owner itself blocking on it - is reported instead of hanging the process."""
+
+    def __init__(self):
+        self._l = _REAL_LOCK()
+        self.owner = None
+
+    def acquire(self, blocking=True, timeout=-1):
+        me = _threading.get_ident()
+        if self.owner == me and blocking and (timeout is None or timeout < 0):
+            import traceback
+            DEADLOCKS.append([(f.filename.rsplit('/', 2)[-1], f.lineno, f.name) for f in traceback.extract_stack()[-8:-1]])
+            raise SelfDeadlock('thread blocks on a lock it already holds')
+        ok = self._l.acquire(blocking, -1 if timeout is None else timeout)
+        if ok:
+            self.owner = me
+        return ok
+
+    def release(self):
+        self.owner = None
+        self._l.release()
+
+    def locked(self):
+        return self._l.locked()
+
+    def __enter__(self):
+        self.acquire()
+        return self
+
+    def __exit__(self, *a):
+        self.release()
+        return False
+
+
+def lock_factory_for_callers(prefix='lomond'):
+    """threading.Lock replacement: DetectLock for locks created by the code under test, the real thing for
+    everybody else (stdlib, harness)."""
+    def Lock():
+        try:
+            name = sys._getframe(1).f_globals.get('__name__', '')
+        except Exception:   # noqa
+            name = ''
+        if name == prefix or name.startswith(prefix + '.'):
+            return DetectLock()
+        return _REAL_LOCK()
+    return Lock
+
+
 _active = [None]     # the scheduler currently running (None outside scheduled phases)
 
 
@@ -114,11 +171,11 @@ class patched_threading_factories(object):
     """While lomond is imported: any lock created at import time (module / class level) is scheduler-aware too."""
 
     def __enter__(self):
+        self.saved = (_threading.Lock, _threading.RLock)
         _threading.Lock = lambda: SchedLock(False)
         _threading.RLock = lambda: SchedLock(True)
         return self
 
     def __exit__(self, *a):
-        _threading.Lock = _REAL_LOCK
-        _threading.RLock = _REAL_RLOCK
+        _threading.Lock, _threading.RLock = self.saved
         return False
